@@ -355,7 +355,11 @@ def mask_textline_by_region(baseline, textline, region):
         baseline_is = baseline_is.geoms[np.argmax(lengths)]
 
     if isinstance(baseline_is, sg.LineString) and isinstance(textline_is, sg.Polygon) and baseline_is.length > 2:
-        return np.asarray(baseline_is.coords), np.asarray(textline_is.exterior.coords)
+        baseline_coords = np.asarray(baseline_is.coords)
+        # shapely does not promise to keep the direction of the input line (merged pieces may come back reversed)
+        if baseline_shpl.project(sg.Point(baseline_coords[0])) > baseline_shpl.project(sg.Point(baseline_coords[-1])):
+            baseline_coords = baseline_coords[::-1]
+        return baseline_coords, np.asarray(textline_is.exterior.coords)
     else:
         return None, None
 
